@@ -208,6 +208,9 @@ class RDSystem :
     def space(self, v) :
         if type(v) not in [RDGridSpace, RDGraphSpace] :
             raise ValueError("space must be a :py:class:`RDGridSpace` or :py:class:`RDGraphSpace`.")
+        for e in v.get_cell_env_array() :
+            if e < 0 or e >= self.network.nenvironments() :
+                raise ValueError("the space refers to environment index "+str(e)+", which is not in the network's environments.")
         self._space = v
     
     @property
